@@ -108,12 +108,35 @@ def bounds(tier):
 
 
 # ------------------------------------------------------------------ one case = (structure, tag) x 4 entry points
+REJECT = "reject"
+
+
+class Crash(tuple):
+    """Record of a raised exception that is not a ValueError: (label, exception type name, message)."""
+
+
+def _exc(e):
+    """Plain record of a raised exception.  Exception objects are never kept: a pydantic ValidationError held in a
+    local of the calling frame forms a reference cycle through its traceback that the collector cannot free."""
+    if isinstance(e, ValueError):
+        return REJECT
+    return Crash(("crash:" + type(e).__name__, type(e).__name__, str(e)[:120]))
+
+
 def _label(r):
-    if not isinstance(r, BaseException):
-        return "accept"
-    if isinstance(r, ValueError):
+    if r is REJECT:
         return "reject"
-    return "crash:" + type(r).__name__
+    if type(r) is Crash:
+        return r[0]
+    return "accept"
+
+
+def _excname(r):
+    return r[1] if type(r) is Crash else "ValueError"
+
+
+def _msg(r):
+    return "%s: %s" % (r[0], r[2]) if type(r) is Crash else "reject"
 
 
 def run_one(c, ctext, tag, case):
@@ -127,30 +150,29 @@ def run_one(c, ctext, tag, case):
         r0 = klass(coordinates=c)
         acc += 1
     except Exception as e:  # noqa
-        r0 = e
+        r0 = _exc(e)
     try:
         r1 = geometry_validate({"type": tag, "coordinates": c}, mode="dict")
         acc += 1
     except Exception as e:  # noqa
-        r1 = e
+        r1 = _exc(e)
     try:
         r2 = geometry_validate(SimpleNamespace(type=tag, coordinates=c), mode="attributes")
         acc += 1
     except Exception as e:  # noqa
-        r2 = e
+        r2 = _exc(e)
     try:
         r3 = geometry_validate(jtext)
         acc += 1
     except Exception as e:  # noqa
-        r3 = e
+        r3 = _exc(e)
     out.transitions = 4
     out.validated = 4
     nest = gm.nesting_ok(tag, c)
     out.nontrivial = nest
 
     # ---- fast path 1: the model says invalid and every entry point raised a ValueError
-    if acc == 0 and not exp and isinstance(r0, ValueError) and isinstance(r1, ValueError) \
-            and isinstance(r2, ValueError) and isinstance(r3, ValueError):
+    if acc == 0 and not exp and r0 is REJECT and r1 is REJECT and r2 is REJECT and r3 is REJECT:
         out.checks = {"accept_iff_valid": [4, 0], "entry_points_agree": [1, 0], "no_object_on_reject": [4, 0],
                       "normal_form": [0, 1], "class_matches_tag": [0, 1], "json_roundtrip": [0, 1]}
         out.klass = tag + (":reject-rule" if nest else ":reject-nesting")
@@ -187,8 +209,8 @@ def run_one(c, ctext, tag, case):
         n_raised += 1
         if i in crashed:
             bad = True
-            out.fail("no_object_on_reject", got[i] + ": " + str(res[i])[:120], "a ValueError subclass",
-                     {"type": tag, "entry": "all" if len(crashed) == 4 else EP[i], "exc": type(res[i]).__name__, "model": model}, detail)
+            out.fail("no_object_on_reject", _msg(res[i]), "a ValueError subclass",
+                     {"type": tag, "entry": "all" if len(crashed) == 4 else EP[i], "exc": _excname(res[i]), "model": model}, detail)
         else:
             out.ok("no_object_on_reject")
     if n_raised == 0:
@@ -213,7 +235,7 @@ def run_one(c, ctext, tag, case):
             same = g4 == g0 and type(g4) is type(g0)
             obs = repr(g4)
         except Exception as e:  # noqa
-            same, obs = False, _label(e) + ": " + str(e)[:120]
+            same, obs = False, _msg(_exc(e)) + " " + type(e).__name__
         if not same:
             bad = True
         out.expect("entry_points_agree", same, obs, repr(g0), {"type": tag, "entry": "attributes(instance)", "model": model}, detail)
@@ -249,7 +271,7 @@ def run_one(c, ctext, tag, case):
             same = g5 == g and type(g5) is type(g)
             obs = [dump, repr(g5)]
         except Exception as e:  # noqa
-            same, obs = False, _label(e) + ": " + str(e)[:120]
+            same, obs = False, _msg(_exc(e)) + " " + type(e).__name__
         if not same:
             bad = True
         out.expect("json_roundtrip", same, obs, repr(g), {"type": tag, "entry": "all" if acc == 4 and agree else EP[i], "input": shape_in}, detail)
@@ -539,7 +561,7 @@ def _try(fn):
     try:
         return fn()
     except Exception as e:  # noqa
-        return e
+        return _exc(e)
 
 
 def run_tag_case(case):
@@ -557,8 +579,8 @@ def run_tag_case(case):
         cls = {"type": x, "entry": "ctor(type=)", "tag": kind, "model": model, "got": got}
         out.expect("accept_iff_valid", (got == "accept") == exp, got, "accept" if exp else "reject", cls)
         if got != "accept":
-            out.expect("no_object_on_reject", got == "reject", got + ": " + str(r)[:120], "a ValueError subclass",
-                       {"type": x, "entry": "ctor(type=)", "tag": kind, "exc": type(r).__name__})
+            out.expect("no_object_on_reject", got == "reject", _msg(r), "a ValueError subclass",
+                       {"type": x, "entry": "ctor(type=)", "tag": kind, "exc": _excname(r)})
         else:
             out.expect("class_matches_tag", type(r) is klass and r.type == x, [type(r).__name__, r.type], [x, x],
                        {"type": x, "entry": "ctor(type=)", "tag": kind})
@@ -591,8 +613,8 @@ def run_tag_case(case):
             out.expect("accept_iff_valid", got != "accept", got, "reject", {"entry": n, "tag": kind, "model": "tag:" + kind, "got": got})
             if got != "accept":
                 allc = all(g.startswith("crash") for g in gots)
-                out.expect("no_object_on_reject", got == "reject", got + ": " + str(r)[:120], "a ValueError subclass",
-                           {"entry": "all" if allc else n, "tag": kind, "exc": type(r).__name__})
+                out.expect("no_object_on_reject", got == "reject", _msg(r), "a ValueError subclass",
+                           {"entry": "all" if allc else n, "tag": kind, "exc": _excname(r)})
         out.expect("entry_points_agree", len({g == "accept" for g in gots}) == 1, gots, "same decision", {"tag": kind, "pattern": "/".join(gots)})
         out.transitions = out.validated = 4
         out.nontrivial = "c" in case and any(gm.valid(t, case["c"]) for t in TYPES)
@@ -615,8 +637,8 @@ def run_tag_case(case):
     got = _label(r)
     out.expect("accept_iff_valid", got != "accept", got, "reject", {"entry": how, "model": "misuse", "got": got})
     if got != "accept":
-        out.expect("no_object_on_reject", got == "reject", got + ": " + str(r)[:120], "a ValueError subclass",
-                   {"entry": how, "exc": type(r).__name__})
+        out.expect("no_object_on_reject", got == "reject", _msg(r), "a ValueError subclass",
+                   {"entry": how, "exc": _excname(r)})
     # the well-formed counterpart is accepted (so the rejection is due to the misuse)
     okc = _try(lambda: geometry_validate(text))
     out.expect("accept_iff_valid", _label(okc) == "accept", _label(okc), "accept", {"entry": "json", "type": x, "model": "valid", "got": _label(okc)})
